@@ -1,7 +1,7 @@
 """C19 HDR histogram: counts are conserved, quantiles / Min / Max are within the promised precision,
 Export/Import and Merge-into-empty are identities, in-range values are always recordable, no invariant panic.
 
-Large magnitudes (values at and beyond 2^31, 2^32, up to 2^62) are reached by replaying the TLC-generated
+Large magnitudes (values at and beyond 2^31, 2^32, up to 2^61) are reached by replaying the TLC-generated
 behaviours a second time under the transformations of Hdr.tla (ScaleLaw / LiftLaw / TransExpect): see _plans."""
 import copy, json, random, time
 
@@ -16,28 +16,29 @@ def _calls(b):
            ["%s(%s)" % (s["op"], ",".join(str(s[k]) for k in ("v", "n") if k in s)) for s in b[1:]]
 
 
-KINDS = ("max@2^31", "max@2^32", "min@2^31", "max@2^62", "random")
+KINDS = ("max@2^31", "max@2^32", "min@2^31", "max@2^61", "random")
 SPLITS = ("scale", "lift", "mixed")
 
 
 def _plans(b, rng):
     """The (kind, split, lift k, scale c) variants of behaviour b.  k + c = t with max * 2^t just past 2^31, just past
-    2^32, min * 2^t just past 2^31, max * 2^t in [2^61, 2^62), and a random t; the split
+    2^32, min * 2^t just past 2^31, max * 2^t in [2^60, 2^61), and a random t; the split
     of t is scale only (unit magnitude + t), lift as far as allowed (bucket indices + k) or half and half.  The lift is
     capped so that the counts array grows by at most 2^19 entries and is 0 for behaviours with RecordCorrectedValue
     (v - e is not invariant under a lift)."""
     new = b[0]
     mx, mn = new["max"], new["min"]
-    # mx << budget < 2^62: New's bucket-count loop doubles smallestUntrackableValue until it exceeds max, which needs a
-    # power of two above max in int64 (for max >= 2^62 the loop of hdr.go:70 never ends - outside this check, see assumptions)
-    budget = 62 - mx.bit_length()
+    # New's bucket-count loop doubles smallestUntrackableValue until it exceeds max, which needs a power of two above max
+    # in int64: for max >= 2^62 the loop of hdr.go:70 never ends (outside this check, see assumptions).  One bit of margin
+    # is kept (mx << budget < 2^61) so that a defect that is off by one magnitude shows as a wrong answer, not as a spin
+    budget = 61 - mx.bit_length()
     half = new["liftfrom"] // new["pu"]
     kmax = 0 if any(s["op"] == "corr" for s in b) else (1 << 19) // half
     # New computes subBucketCount << unitMagnitude = 2 * liftfrom << c in int64 (hdr.go:68); when the whole range lies in
     # bucket 0 this is far above max, and beyond 2^62 it overflows (the loop of hdr.go:70 then never ends)
-    cmax = 62 - new["liftfrom"].bit_length()
+    cmax = 61 - new["liftfrom"].bit_length()           # 2 * liftfrom << cmax = 2^61
     totals = {"max@2^31": 32 - mx.bit_length(), "max@2^32": 33 - mx.bit_length(), "min@2^31": 32 - mn.bit_length(),
-              "max@2^62": budget, "random": rng.randint(1, budget)}
+              "max@2^61": budget, "random": rng.randint(1, budget)}
     out = []
     for kind in KINDS:
         t = totals[kind]
@@ -62,13 +63,13 @@ def run(rep, tier, seed, replay_file=None):
     quick = tier == "quick"
     rep.assumptions += [
         "TLC is sound; TLC integers are 32-bit, so the shapes of the model are limited to max <= 2^28 (sigfigs 1..5)",
-        "large magnitudes (values from 2^31 up to 2^62) are not enumerated by TLC: the results for them rest on (1) the "
+        "large magnitudes (values from 2^31 up to 2^61) are not enumerated by TLC: the results for them rest on (1) the "
         "ScaleLaw / LiftLaw / ExpectLaw of Hdr.tla - the bucket geometry and the expectations are invariant under "
         "(min, max, v) -> (min 2^c, max 2^(k+c), v 2^c or v 2^(k+c)) - which TLC checks for every shape, candidate value "
         "and reachable state of the cfg files for k + c in 1..3 only (k + c = 1 for the two shapes with max >= 2^28: model "
         "values stay below 2^30), assumed to extend to "
         "larger k + c because the laws are statements about bit shifts that do not depend on the exponent, and (2) the "
-        "replay of the same TLC-generated behaviours on the real code at k + c up to 61, judged with TransExpect of the "
+        "replay of the same TLC-generated behaviours on the real code at k + c up to 60, judged with TransExpect of the "
         "printed expectations; large values are therefore always of the form (boundary-directed model value) * 2^t, "
         "with unit magnitude raised by c and bucket indices raised by k",
         "decided for the integer part of the statement: bucket geometry, count conservation, quantile/Min/Max brackets; "
@@ -78,7 +79,8 @@ def run(rep, tier, seed, replay_file=None):
         "exhaustive claims hold for the shapes and boundary-directed value sets of the cfg files (min in {1,2,3,1000}, max in "
         "{100,1023,1024,100000}, sigfigs in {1,2}); sigfigs 3..5 are covered by a small exhaustive set (thorough) and by simulation",
         "RecordValues is called with n >= 1 only; values outside [min,max] are never recorded",
-        "shapes are kept where New terminates: max * 2^(k+c) < 2^62 and subBucketCount << unitMagnitude <= 2^62; beyond that the "
+        "shapes are kept where New terminates, with one bit of margin: max * 2^(k+c) < 2^61 and subBucketCount << unitMagnitude "
+        "<= 2^61; from max >= 2^62 or subBucketCount << unitMagnitude > 2^62 on the "
         "bucket-count loop of New (hdr.go:68-73) overflows int64 and never ends (fixes/hdrhist-new-extreme-shapes-loop.diff, "
         "fixes/demos/hdrhist_new_loops) - a non-terminating constructor cannot be judged without a clock and is not part of "
         "the property's text, so it is reported, not checked",
@@ -195,7 +197,7 @@ def run(rep, tier, seed, replay_file=None):
                                               rule="behaviour executed on New(min<<c, max<<(k+c), sf) with values v<<c below liftfrom, "
                                                    "v<<(k+c) from liftfrom on; expectations = TransExpect of the printed ones")
     common.capped_replay(rep, binary, ["replay"], scaled, shards=8, label="hdr", nontrivial=lambda o: _nontrivial(o["beh"]), cap=2,
-                         size=lambda b: (len(b), b[0]["max"]), wrap=False)
+                         size=lambda b: (len(b), b[0]["max"]), wrap=False, timeout=300 if quick else 1500)
     phases["replay_large"] = round(time.time() - t0, 1)
 
     # self-test of the transformation: what the replayer computes from a printed expectation must be what TLC
@@ -251,5 +253,5 @@ def run(rep, tier, seed, replay_file=None):
                        "Distribution/CumulativeDistribution totals, Equals after Export/Import and Merge-into-empty are compared with the "
                        "spec's order statistics; any recovered panic is a violation; non-trivial = occurrences in at least two buckets or a "
                        "call other than Record; every behaviour is executed again at a large magnitude (lift k, scale c with "
-                       "max*2^(k+c) just past 2^31 / 2^32, min past 2^31, max in [2^61,2^62) or random; one variant per behaviour in the "
+                       "max*2^(k+c) just past 2^31 / 2^32, min past 2^31, max in [2^60,2^61) or random; one variant per behaviour in the "
                        "quick tier, every kind in the thorough tier) and judged with TransExpect (Hdr.tla) of the printed expectations")
